@@ -34,7 +34,9 @@ BUDGET = {
 }
 BAD = ["float-comment", "none-in-announce", "surrogate-comment", "surrogate-url", "none-in-url-list", "float-source",
        # bencode has no boolean type either
-       "bool-comment", "bool-source", "bool-in-announce", "bool-in-httpseeds"]
+       "bool-comment", "bool-source", "bool-in-announce", "bool-in-httpseeds",
+       # ... and dictionary keys are byte strings
+       "dict-bool-key", "dict-int-key", "dict-tuple-key"]
 
 
 def strategy(tier):
@@ -76,6 +78,12 @@ def bad_args(kind):
         args["announce"] = ["http://a", True]
     elif kind == "bool-in-httpseeds":
         args["httpseeds"] = [False]
+    elif kind == "dict-bool-key":
+        args["comment"] = {True: "x"}
+    elif kind == "dict-int-key":
+        args["source"] = {1: "x"}
+    elif kind == "dict-tuple-key":
+        args["url-list"] = [{("a", "b"): "x"}]
     elif kind == "surrogate-url":
         args["httpseeds"] = ["http://\udcff"]
     return args
